@@ -25,6 +25,63 @@ CHECKS.update({
         design="§6 C13",
     ),
 })
+CHECKS.update({
+    "C01": dict(
+        text="Lean 4 theorems: every single graph transformation (insert QUANTIZE / insert DEQUANTIZE / quantize tensor) preserves the decidable well-formedness predicate WF.modelOK (indices in range, unique names, single producer, valid execution order, valid graph/signature I/O); the whole transformation performer with its op-id maps preserves it for consistent chain-free instruction lists (performer_wf); instruction generation + performer preserve it for every request set of the closed shape the registered algorithms produce (modify_wf); inserted names are fresh, opcode indices valid. The interpreter clause is executed in a sandboxed child on every generated case.",
+        note="end-to-end link 'materialisation emits requests of that closed shape' is being proved (QProofs/PipelineWF); until it lands it is covered by the bit-exact pipeline correspondence, which also evaluates WF.modelOK on the model's own output for every case; interpreter allocate/invoke is runtime behaviour (executed, not proved)",
+        design="§6 C01",
+    ),
+    "C02": dict(
+        text="Lean 4 theorems: erasing the inserted QUANTIZE/DEQUANTIZE ops from the performer's result and mapping derived tensors back gives exactly the input graph (same ops, order, operands, results; no tensor renamed/reshaped/dropped; inputs unchanged; graph outputs and signature outputs denote the same original tensors; signature keys/argument names kept) — performer_skeleton / modify_skeleton, for every well-formed input and every request set of the registered algorithms' shape. Independent Python skeleton/IO oracle on every generated case.",
+        note="'inputs/outputs stay float32 unless INPUT/OUTPUT is covered' is checked by the oracle using the real RecipeManager resolution; op options are represented by the orig tag (untouched by construction of the model, compared by the oracle)",
+        design="§6 C02",
+    ),
+    "C03": dict(
+        text="Lean 4 theorems on the materialisation model: which transformation each mode requests per operand (static range / dynamic range / weight only), non-float operands always receive NO_QUANTIZE (nonfloat_never_quantized), tensor type produced per bit width; combined with the wiring theorems of C01/C02. The materialisation and the whole pipeline are compared bit-exactly with the code; an independent per-operand dtype oracle runs on every generated case.",
+        note="the composed statement 'operand dtype in the output graph = table(mode)' is established per case by oracle + correspondence, not yet as one Lean theorem",
+        design="§6 C03",
+    ),
+    "C04": dict(
+        text="Lean 4 theorems: bias parameters (scale = input scale x weight scale per channel, zero point 0, 32/64 bit), fixed output ranges of softmax/logistic/tanh, parameters handed to another runtime tensor are carried unchanged (same-as-input / same-as-output rules), plus C17's scalar laws under IEEE rounding (positive finite scale, zero point in range, symmetric => 0). Materialisation compared bit-exactly with the code; independent oracle re-derives the reference parameters from statistics the check recomputes with its own interpreter run.",
+        note="the statement 'params(t) = reference(stats(root t), cfg)' for every tensor is checked by the oracle, not proved as one theorem",
+        design="§6 C04",
+    ),
+    "C05": dict(
+        text="Lean 4 theorems: int4 nibble packing round trip for every list of codes incl. odd lengths (unpack_pack), packed length, little-endian round trip, and the value laws (C17.dq_q_ideal, C17.dq_q_rounded: dequantized value within half a step + explicit float32 slack; C17.cover_ideal: a constant quantized with its own min/max is in range). Independent decoder on every rewritten constant of every generated case.",
+        note="float16 cast is modelled (bit-exact correspondence) but has no theorem beyond the rounding-operator laws; 16/32/64-bit little-endian round trip proved for 8-bit storage only",
+        design="§6 C05",
+    ),
+    "C08": dict(
+        text="Lean 4 theorems over regenerated tables: the model's materialisation dispatch covers every registered (algorithm, op, function); shipped recipes load, are single '.*'/'*' rules and carry policy-accepted configs. Rejection-freedom on generated supported-op graphs is established by execution of all shipped recipes on generated normal-form models (no tied constants).",
+        note="the totality theorem (no raise site reachable for shipped recipes) is NOT proved: this check's guarantee beyond the table theorems is exploration-level",
+        design="§6 C08",
+    ),
+    "C09": dict(
+        text="Lean 4 theorems on the calibration model: resumption (calibrate on D1 then continue on D2 from the result = one pass over D1++D2, for every model/recipe/data), first sample initialises, statistics complete after >=1 sample. Calibrator compared bit-exactly (float32 EMA arithmetic included) with the model on contents captured by the harness's own interpreter; all ways of splitting 1..4 samples into sessions; independent EMA / true-min-max oracle; previous result unmodified.",
+        note="the interpreter producing tensor contents is external (input of the model)",
+        design="§6 C09",
+    ),
+    "C10": dict(
+        text="Lean 4 theorem stats_complete: after calibrate() on >=1 sample every non-constant operand/result of every op selected for min/max quantization has recorded min/max (so quantize() cannot find them missing); both stages use one scope function in the model and both real scope builders are compared per op; calibrate-then-quantize executed over regex-heavy recipes incl. multi-signature models.",
+        note="equality of the two Python scope builders is established by execution on every op of every generated model, not by proof",
+        design="§6 C10",
+    ),
+    "C14": dict(
+        text="Lean 4 theorems: the statistics object handed to quantize() is unchanged; quantize() and calibrate() of a Quantizer reached by ANY history of recipe updates equal those of a fresh Quantizer that loads the exported recipe (via the reload theorem). Executed: random interleavings of update/load/calibrate/quantize/validate on two Quantizers sharing results with deep equality of all caller-owned arguments, sha256 vs fresh Quantizer, and fresh processes under other PYTHONHASHSEED values.",
+        note="process-level determinism and hash-seed independence are CPython/runtime behaviour: executed, not proved",
+        design="§6 C14",
+    ),
+    "C15": dict(
+        text="Lean 4 theorems on the buffer-sharing decision: compatible requests read a shared constant through the same source class and, when quantizing, with ==-equal parameters; writing the same packed data twice is idempotent. Executed on generated tied-constant models (within/across subgraphs, one tensor with 2..3 consumers) x equal/different/no quantization: every buffer decoded against every referent, rejection allowed.",
+        note="the end-to-end statement over the output graph is checked per case by the oracle",
+        design="§6 C15",
+    ),
+    "C19": dict(
+        text="Lean 4 theorem: every single graph transformation leaves all other subgraphs literally unchanged (only opcodes/buffers are shared tables). Executed: subgraph i of quantize(multi-subgraph model) vs subgraph 0 of quantize(extracted model) with restricted statistics, structurally and by constant hashes.",
+        note="the end-to-end equality with the extracted model is exploration-level",
+        design="§6 C19",
+    ),
+})
 PENDING = {}
 ALL = [f"C{i:02d}" for i in range(1, 20)]
 
